@@ -11,7 +11,9 @@ import common, implrun
 
 RULE = ("seeded random block structures (depth <=4, <=7 statements per block) over declarations, uses, blocks, if/else (braced and un-braced "
         "branches), for (with header declaration), while, do; names drawn from the visible, the out-of-scope and fresh names at every position; "
-        "1-2 functions per module, 0-2 globals. Non-trivial: at least two declarations and one nested scope; distinct = distinct skeleton")
+        "1-2 functions per module, 0-2 globals; binding leg: re-use vs alpha-renamed programs; member leg: a global / parameter / local / "
+        "loop variable named like a struct member, two structs sharing a member name (accepted, binds to the variable), a bare use of a "
+        "member's name (rejected). Non-trivial: at least two declarations and one nested scope; distinct = distinct skeleton")
 EXHAUSTIVE = {"quick": False, "thorough": False}
 ASSUMPTIONS = ["the two un-braced branches of one `if` belong to the scope of that `if` (DESIGN.md §7); un-braced declarations are generated as if/for/while bodies",
                "run-time binding (which storage a use reads) is covered by the theorems about the model (flat_refines_lexical, uses_resolve); "
@@ -212,6 +214,7 @@ def explore(run, widen=1):
 
 
     binding_leg(run)
+    member_leg(run)
 
 
 def binding_leg(run):
@@ -253,6 +256,64 @@ def binding_leg(run):
                      key="binding:" + outs[0][0])
 
 
+def member_cases(rng, n):
+    """Members of a struct are names of the struct, not variables of the module: a variable (global, parameter, local, loop
+    header) may carry the name of a member, two structs may have members of the same name, and a bare use of a member's name
+    where no variable of that name is visible is a use of an undeclared name.
+    -> (source, alpha-renamed source or None, expected 'accept'/'reject', tag)"""
+    out = []
+    for _ in range(n):
+        m = rng.choice(["m0", "x", "val"])
+        other = rng.choice(["m1", "y"])
+        two = rng.random() < .5
+        structs = "struct S0 { int %s; float %s; }\n" % (m, other) + ("struct S1 { float %s; int k; }\n" % m if two else "")
+        pos = rng.choice(["global", "param", "local", "for", "none", "none-nested", "shared-only"])
+        def prog(v):
+            g = "int %s = 7;\n" % v if pos == "global" else ""
+            ps = "int a, int %s" % v if pos == "param" else "int a"
+            pre = {"local": "int %s = a * 2;" % v, "for": "for (int %s = 0; %s < 3; ++%s) { r = r + %s; }" % (v, v, v, v)}.get(pos, "")
+            use = {"global": "r = r + %s; %s = %s + 1;" % (v, v, v), "param": "r = r + %s;" % v, "local": "r = r + %s; %s = 1;" % (v, v), "for": "",
+                   "none": "r = r + %s;" % v, "none-nested": "if (a > 0) { r = r + %s; }" % v, "shared-only": ""}[pos]
+            body = "S0 s; s.%s = a + 1; int r = 0; %s %s r = r + s.%s * 100;" % (m, pre, use, m)
+            if two: body += " S1 t; t.%s = 0.5; r = r + t.k;" % m
+            return structs + g + "export function f(%s) -> int { %s return r; }\n" % (ps, body)
+        if pos in ("none", "none-nested"):
+            out.append((prog(m), None, "reject", "bare-use-of-a-member-name"))
+        else:
+            out.append((prog(m), prog("w9"), "accept", "variable-named-like-a-member:" + pos + (":two-structs" if two else "")))
+    return out
+
+
+def member_leg(run):
+    seen = set()
+    for src, renamed, want, tag in member_cases(run.rng, 400 if run.tier == "thorough" else 120):
+        if src in seen: continue
+        seen.add(src)
+        outs = []
+        for text in (src, renamed):
+            if text is None: outs.append(None); continue
+            c = implrun.compile_src(text)
+            if c[0] != "ok": outs.append(("reject", str(c[1][:2]))); continue
+            res = []
+            for a in (5, -2):
+                vm = implrun.new_vm(implrun.link([c[1].IRModule]))
+                kw = dict(a=a); 
+                if "int a, int" in text: kw[text.split("int a, int ")[1].split(")")[0]] = 11
+                res.append(implrun.invoke(vm, "f", kw, limit=3))
+            outs.append(("ok", res))
+        run.case(("members", src), nontrivial=True); run.count("members:" + tag.split(":")[0]); run.count("members:" + outs[0][0])
+        inp = dict(source=src, renamed=renamed, expected=want)
+        if want == "reject":
+            if outs[0][0] != "reject":
+                run.fail("members", inp, "a member's name is used where no variable of that name is visible, and the program is accepted (%s):\n%s" % (str(outs[0])[:120], src),
+                         key="members:accepts-undeclared")
+        elif outs[0][0] != "ok":
+            run.fail("members", inp, "%s — the program is rejected (%s), no variable of that name is visible at the declaration:\n%s" % (tag, outs[0][1], src), key="members:rejects")
+        elif outs[0] != outs[1]:
+            run.fail("members", dict(inp, got=str(outs[0])[:200], want=str(outs[1])[:200]), "%s:\n%s\nbehaves like %s, the renamed version like %s" % (tag, src, str(outs[0])[:120], str(outs[1])[:120]),
+                     key="members:binding")
+
+
 def search(run):
     explore(run, widen=3)
 
@@ -264,6 +325,10 @@ def matches(entry, failure):
 def replay(obj):
     implrun.load()
     x = obj["input"]
+    if obj.get("kind") == "members":
+        c = implrun.compile_src(x["source"])
+        got = "accept" if c[0] == "ok" else "reject"
+        return got == x["expected"], "front end: %s (rule %s)" % (got, x["expected"])
     names, full = run_impl(x["source"])
     ok = names == x["expected_names"] and full == x["expected_frontend"]
     return ok, "names pass: %s (rule %s); front end: %s (rule %s)" % (names, x["expected_names"], full, x["expected_frontend"])
